@@ -294,6 +294,7 @@ ValueConforms(el, v, j) ==
        \/ IsNumNode(j, Denot(el.rep, v))
        \/ j.t = "str" /\ ParseDec(j.s) = Denot(el.rep, v)
        \/ j.t = "str" /\ el.rep \in {"str", "strs"} /\ StripPad(j.s) = StripPad(v)
+       \/ j.t = "null" /\ el.rep \in {"str", "strs"} /\ StripPad(v) = ""      \* F.2.5: an empty value may be null
   ELSE FALSE
 
 RECURSIVE Conforms(_, _)
@@ -383,9 +384,9 @@ AbsElem(el) ==
           (* long byte values are compared through their base64 text (injective) *)
           LET bytes == BytesOf(el) IN IF Len(bytes) > 256 THEN Mk("b64", <<Base64(bytes)>>) ELSE Mk("bytes", bytes)
      ELSE IF el.rep \in {"str", "strs"} THEN
-          IF el.vr \in NumStrVRs \cup NumVRs THEN Mk("num", Map(LAMBDA v : ParseDec(v)))
           (* one value that is blank is a zero-length value *)
-          ELSE IF n = 1 /\ StripPad(el.vals[1]) = "" THEN Mk("none", <<>>)
+          IF n = 1 /\ StripPad(el.vals[1]) = "" THEN Mk("none", <<>>)
+          ELSE IF el.vr \in NumStrVRs \cup NumVRs THEN Mk("num", Map(LAMBDA v : ParseDec(v)))
           ELSE Mk("text", Map(LAMBDA v : StripPad(v)))
      ELSE Mk("num", el.vals)
 AbsDs(ds) == LET s == SortByTag(ds) IN [i \in 1..Len(s) |-> AbsElem(s[i])]
